@@ -31,21 +31,6 @@ inline void fixpo_event(const char *kind, const std::string &node,
     fixpo_event_callback()(kind, node, iteration);
   }
 }
-
-// A domain reports that it took a code path an external harness wants
-// to know about (e.g. "array_adaptive.store_ignored").
-using note_fn = void (*)(const char *what);
-
-inline note_fn &note_callback() {
-  static note_fn callback = nullptr;
-  return callback;
-}
-
-inline void note(const char *what) {
-  if (note_callback()) {
-    note_callback()(what);
-  }
-}
 } // namespace verif_hooks
 } // namespace crab
 #endif
